@@ -1,4 +1,4 @@
-# C03 defect 4: with subpath constraints the minimum number of paths can exceed |E|, but MinFlowDecomp.solve only
+# C03 regression snippet (defect fixed in /repo) - former defect 4: with subpath constraints the minimum number of paths can exceed |E|, but MinFlowDecomp.solve only
 # searches range(lb, |E|+1). Complete DAG on 6 nodes without (v0,v5),(v0,v4),(v1,v5): 12 edges, 13 source-to-sink paths;
 # flow = one unit per path, every path is a subpath constraint. kFlowDecomp(k=13) is feasible, MinFlowDecomp gives up.
 import sys; sys.path.insert(0, __import__("os").environ.get("FLOWPATHS_REPO", "/repo"))
@@ -16,5 +16,5 @@ k = fp.kFlowDecomp(G, flow_attr="flow", k=len(paths), weight_type=int, subpath_c
 print("kFlowDecomp(k=13).solve():", k.solve())
 m = fp.MinFlowDecomp(G, flow_attr="flow", weight_type=int, subpath_constraints=cons,
                      optimization_options={"lowerbound_k": 12})      # 12 is a valid lower bound (the minimum is 13)
-print("MinFlowDecomp.solve():", m.solve(), "(range(12, 13) only tries k = 12)")
-assert k.is_solved() and not m.is_solved()
+print("MinFlowDecomp.solve():", m.solve(), "(before e0ac661: range(12, 13) only tried k = 12)")
+assert k.is_solved() and m.is_solved() and len(m.get_solution()["paths"]) == 13   # regression: fixed by e0ac661
